@@ -15,7 +15,7 @@ import shutil
 from .. import common, trace, tlc
 from .. import validator_common as vc
 
-PATTERNS = ["picture_%d.raw", "sub/dir/p_%03d.raw", "noext_%d", "odd.name_%d.bin", "%d"]
+PATTERNS = ["picture_%d.raw", "sub/dir/p_%03d.raw", "noext_%d", "odd.name_%d.bin", "%d", "dot.dir/pic_%d", "v1.2/out.d/%02d", "x.y/z_%d.raw"]
 
 
 def pictures_equal(a, b):
@@ -31,6 +31,20 @@ def run_one(job):
     pattern = PATTERNS[job[1] % len(PATTERNS)]
     lib = vc.guarded_validate(data, want_pictures=True)
     ev = {"ev": "cli", "lib": lib["outcome"], "exc": lib["exc"] or "", "base": name, "kind": kind, "pattern": pattern, "npics_lib": len(lib["pics"]), "exit": -1, "marker_offset": False, "marker_explain": False, "marker_hint": False, "files": [], "pairs_equal": [], "sig": ""}
+    ev["offset_lib"] = -1
+    ev["offset_cli"] = -2
+    if lib["outcome"] == "reject":
+        # where the library itself locates the error: offending_offset(), else the read position
+        try:
+            from vc2_conformance.decoder import tell
+            from vc2_conformance.bitstream import to_bit_offset
+
+            off = lib["error"].offending_offset()
+            ev["offset_lib"] = int(off if off is not None else to_bit_offset(*tell(lib["state"])))
+            if not (0 <= ev["offset_lib"] < (1 << 30)):
+                ev["offset_lib"] = -1
+        except Exception:  # noqa  (C02's business)
+            ev["offset_lib"] = -1
     if lib["outcome"] in ("oos", "timeout"):
         return ev
     wd = tlc.mkscratch("cli")
@@ -59,6 +73,11 @@ def run_one(job):
         ev["exit"] = code
         out = so.getvalue()
         ev["marker_offset"] = "Conformance error at bit offset " in out
+        import re
+
+        m = re.search(r"Conformance error at bit offset (\d+)", out)
+        if m and len(m.group(1)) < 10:
+            ev["offset_cli"] = int(m.group(1))
         ev["marker_explain"] = "Details\n-------" in out
         ev["marker_hint"] = "Suggested bitstream viewer commands" in out and "vc2-bitstream-viewer" in out
         if code == 3:
